@@ -192,6 +192,11 @@ def rect_of(case):
 def classify(case, what=""):
     if "aligned" in what:
         return "srtm-float-aligned-index"
+    if "rect" in case:
+        la0, lo0, la1, lo1 = (F(float.fromhex(h)) for h in case["rect"])
+        if min(la1 - la0, lo1 - lo0) < TOL * CELL:
+            # a rectangle thinner than 1e-6 cell: the double index division cannot resolve it
+            return "srtm-rect-below-double-resolution"
     return "other"
 
 
@@ -808,7 +813,7 @@ def main():
                             "(index computation of get_native_grids in doubles vs exact)")
         check_tiles(ck, env, ck.budget(1500, 30000), use_model)
         check_cache(ck, env, ck.budget(60, 1500), use_model)
-        explore_elev(ck, env, ck.budget(130, 2500), use_model)
+        explore_elev(ck, env, ck.budget(100, 2500), use_model)
         if ck.broken() and not ck.violations:
             # failing-input search on the real code (oracle only) with the larger budget
             aligned_edges(ck, env, False)
